@@ -207,6 +207,102 @@ fn check_misuse(idx: &searchlite_core::api::Index, c: &Case, cursors: &[String],
   Ok(checked)
 }
 
+fn plan_uses_score(plan: &Value) -> bool {
+  match plan.as_array() {
+    Some(a) if !a.is_empty() => a.iter().any(|k| k["field"] == "_score"),
+    _ => true, // the default plan is _score desc
+  }
+}
+
+/// A delete-only commit keeps the index generation, so a cursor obtained before it is still valid
+/// afterwards. Under a sort plan without `_score` (keys do not depend on corpus statistics) a
+/// reader opened after the commit must either reject the cursor or continue with exactly the
+/// surviving documents that followed it - never skip or repeat one.
+fn check_carry_over(c: &Case) -> Result<u64, (Option<&'static str>, String)> {
+  let world = c.world;
+  let n = world.docs.len();
+  let mut seg_ids: Vec<Vec<String>> = Vec::new();
+  let mut next = 0usize;
+  for &len in &world.layout {
+    seg_ids.push((next..next + len).map(id_of).collect());
+    next += len;
+  }
+  let mut variants: Vec<(String, Vec<String>)> = Vec::new();
+  if seg_ids.len() >= 2 {
+    variants.push(("every document of the first segment".into(), seg_ids[0].clone()));
+    variants.push(("every document of the last segment".into(), seg_ids[seg_ids.len() - 1].clone()));
+    if seg_ids.len() >= 3 {
+      variants.push(("every document of the second segment".into(), seg_ids[1].clone()));
+    }
+  }
+  variants.push(("the first document".into(), vec![id_of(0)]));
+  let mut checked = 0;
+  for (what, victims) in variants {
+    let idx = world.build();
+    let reader = idx.reader().map_err(|e| (None, format!("reader: {e:#}")))?;
+    let full = search_caught(&reader, &req(c.req(n + 1, None))).map_err(|e| (None, format!("covering request failed: {e}")))?;
+    let order: Vec<String> = full.hits.iter().map(|h| h.doc_id.clone()).collect();
+    // walk: cursor k stands behind the first (k+1)*page hits
+    let mut cursors: Vec<(String, usize)> = Vec::new();
+    let mut cursor: Option<String> = None;
+    let mut seen = 0usize;
+    for _ in 0..n + 2 {
+      let res = search_caught(&reader, &req(c.req(c.page, cursor.as_deref()))).map_err(|e| (None, format!("walk failed: {e}")))?;
+      seen += res.hits.len();
+      match res.next_cursor {
+        Some(nc) => {
+          cursors.push((nc.clone(), seen));
+          cursor = Some(nc);
+        }
+        None => break,
+      }
+    }
+    drop(reader);
+    {
+      let mut w = idx.writer().map_err(|e| (None, format!("{e:#}")))?;
+      w.delete_documents(&victims).map_err(|e| (None, format!("{e:#}")))?;
+      w.commit().map_err(|e| (None, format!("{e:#}")))?;
+    }
+    let reader = idx.reader().map_err(|e| (None, format!("reader: {e:#}")))?;
+    for (cur, pos) in &cursors {
+      checked += 1;
+      let expected: Vec<&String> = order[*pos..].iter().filter(|id| !victims.contains(id)).collect();
+      let mut got: Vec<String> = Vec::new();
+      let mut cursor = Some(cur.clone());
+      let mut rejected = false;
+      for step in 0..n + 2 {
+        match search_caught(&reader, &req(c.req(c.page, cursor.as_deref()))) {
+          Err(e) if e.starts_with("PANIC") => return Err((None, format!("cursor replayed after a delete-only commit ({what}) panicked: {e}"))),
+          Err(_) if step == 0 => {
+            rejected = true;
+            break;
+          }
+          Err(e) => return Err((None, format!("walk continued after a delete-only commit ({what}) failed on a later page: {e}"))),
+          Ok(r) => {
+            got.extend(r.hits.iter().map(|h| h.doc_id.clone()));
+            match r.next_cursor {
+              Some(nc) => cursor = Some(nc),
+              None => break,
+            }
+          }
+        }
+      }
+      if rejected {
+        continue;
+      }
+      if got.iter().collect::<Vec<_>>() != expected {
+        return Err((
+          None,
+          format!(
+            "a delete-only commit removed {what} ({victims:?}); the cursor behind the first {pos} hits of {order:?} was accepted by a reader opened afterwards and the walk continued with {got:?}, but the surviving documents behind it are {expected:?}"
+          ),
+        ));
+      }
+    }
+  }
+  Ok(checked)
+}
+
 pub fn run(ctx: &Ctx) -> i32 {
   let mut rep = Reporter::new("C11", ctx.tier, "exploration");
   let quick = ctx.tier.is_quick();
@@ -221,7 +317,10 @@ pub fn run(ctx: &Ctx) -> i32 {
       let idx = world.build();
       match check_walk(&idx, &c) {
         Err(e) => Some(e.1),
-        Ok(cur) => check_misuse(&idx, &c, &cur, &sort_plans()).err().map(|e| e.1),
+        Ok(cur) => check_misuse(&idx, &c, &cur, &sort_plans())
+          .err()
+          .map(|e| e.1)
+          .or_else(|| if plan_uses_score(c.sort) { None } else { check_carry_over(&c).err().map(|e| e.1) }),
       }
     };
     let (a, b) = (run(), run());
@@ -275,6 +374,7 @@ pub fn run(ctx: &Ctx) -> i32 {
   let evals = AtomicU64::new(0);
   let nontrivial = AtomicU64::new(0);
   let misuse = AtomicU64::new(0);
+  let carried = AtomicU64::new(0);
   let outcomes: Mutex<HashSet<String>> = Mutex::new(HashSet::new());
   let deadline = if quick { 40.0 } else { 1500.0 };
   let timed_out = std::sync::atomic::AtomicBool::new(false);
@@ -308,6 +408,14 @@ pub fn run(ctx: &Ctx) -> i32 {
                       misuse.fetch_add(k, Ordering::Relaxed);
                     }
                   }
+                  if !plan_uses_score(plan) {
+                    match check_carry_over(&c) {
+                      Err((sig, what)) => rep.fail(sig, &format!("{} q={} sort={} page={}: {}", world.describe(), q, plan, page, what), c.to_json()),
+                      Ok(k) => {
+                        carried.fetch_add(k, Ordering::Relaxed);
+                      }
+                    }
+                  }
                 }
               }
             }
@@ -325,9 +433,16 @@ pub fn run(ctx: &Ctx) -> i32 {
     "doc_counts" => n_docs,
     "large_tie_worlds" => "24 / 22 documents cycling over tie-prone shapes in layouts [6,6,6,6], [8,8,8], [12,12], [22]",
     "cursor_misuse_presentations" => misuse.load(Ordering::Relaxed),
+    "cursors_carried_over_a_delete_only_commit" => carried.load(Ordering::Relaxed),
+    "carry_over_rule" => "for sort plans without _score (same reduced slice as the misuse checks): every cursor of the walk is replayed on a reader opened after a delete-only commit that removes every document of the first / last / second segment, or the first document; it must be rejected, or the continued walk must return exactly the surviving documents that followed the cursor",
     "distinct_observed_outcomes" => outcomes.lock().len(),
     "cap_hit" => if to { Some(format!("wall budget {deadline}s")) } else { None },
     "exhaustive" => !to,
   };
-  rep.finish(cov, vec!["cursors re-used after a delete-only commit are not required to be rejected".into()])
+  rep.finish(
+    cov,
+    vec![
+      "cursors re-used after a delete-only commit are not required to be rejected (the index generation is unchanged); under sort plans without _score they must then continue correctly; under plans with _score nothing is demanded, because deletions change the corpus statistics the scores depend on".into(),
+    ],
+  )
 }
